@@ -2,6 +2,7 @@ SPECIFICATION MCSpec
 CONSTANTS
   Fmt = "xmi"
   MaxLen = 2
+  MaxLen2 = 2
   Tempi = {500000, 480000}
 INVARIANT NoBad
 CHECK_DEADLOCK FALSE
